@@ -51,12 +51,45 @@ type Scenario struct {
 	Emb     latgeo.Emb   `json:"emb"`
 	Exp     map[string][]int `json:"exp"`
 	F       map[string]bool  `json:"f"`
+	CP      latgeo.CPath     `json:"cp,omitempty"` // curved scenario (spec/CurvedOps.tla): cubic contours instead of P, Q
+	CQ      latgeo.CPath     `json:"cq,omitempty"`
 	Space   string           `json:"space"` // generation space: tri (3x3 lattice, 3 vertices), pent (5x5, 5), hex (7x7, 6), two (4x4, 4 vertices, two contours per operand)
 }
 
 // tag is the feature class of the scenario (exact predicates evaluated by the spec): "degenerate" if an operand has a
 // zero-area contour, else "overlap" if edges overlap collinearly (between or within operands), else "general".
+func (s *Scenario) buildP() *canvas.Path {
+	if s.CP != nil {
+		return latgeo.BuildCurved(s.CP, s.Emb)
+	}
+	return latgeo.Build(s.P, s.Emb)
+}
+
+func (s *Scenario) buildQ() *canvas.Path {
+	if s.CQ != nil {
+		return latgeo.BuildCurved(s.CQ, s.Emb)
+	}
+	return latgeo.Build(s.Q, s.Emb)
+}
+
+func (s *Scenario) psvg() string {
+	if s.CP != nil {
+		return s.CP.SVG()
+	}
+	return s.P.SVG()
+}
+
+func (s *Scenario) qsvg() string {
+	if s.CQ != nil {
+		return s.CQ.SVG()
+	}
+	return s.Q.SVG()
+}
+
 func (s *Scenario) tag() string {
+	if s.CP != nil {
+		return "curved"
+	}
 	switch {
 	case s.F["pdeg"] || s.F["qdeg"]:
 		return "degenerate" + s.embClass()
@@ -104,7 +137,7 @@ func exec(s *Scenario, guard bool) (ms []core.Mismatch) {
 	pts := latgeo.SamplePts(s.Samples, s.S, s.Emb)
 	res := map[string]*canvas.Path{}
 	for _, op := range ops {
-		p, q := latgeo.Build(s.P, s.Emb), latgeo.Build(s.Q, s.Emb)
+		p, q := s.buildP(), s.buildQ()
 		var r *canvas.Path
 		var kind string
 		var msg any
@@ -118,7 +151,7 @@ func exec(s *Scenario, guard bool) (ms []core.Mismatch) {
 		}
 		if kind != "" {
 			ms = append(ms, core.Mismatch{Signature: kind + "-" + op + ":" + latgeo.PanicClass(msg) + "+" + s.tag(),
-				Detail: fmt.Sprintf("%s %s: P=%s Q=%s emb=%s: %v", op, kind, s.P.SVG(), s.Q.SVG(), s.Emb.Name, msg)})
+				Detail: fmt.Sprintf("%s %s: P=%s Q=%s emb=%s: %v", op, kind, s.psvg(), s.qsvg(), s.Emb.Name, msg)})
 			continue
 		}
 		res[op] = r
@@ -148,15 +181,15 @@ func exec(s *Scenario, guard bool) (ms []core.Mismatch) {
 				sig = "div-bbox-disjoint-empty"
 			}
 			ms = append(ms, core.Mismatch{Signature: sig, Detail: fmt.Sprintf("P=%s %s Q=%s emb=%s: sample %v (lattice %.3f,%.3f) expected filled=%d, result winding %d; result=%s",
-				s.P.SVG(), op, s.Q.SVG(), s.Emb.Name, pts[badNZ], float64(s.Samples[badNZ][0])/float64(s.S), float64(s.Samples[badNZ][1])/float64(s.S), exp[badNZ], w[badNZ], r)})
+				s.psvg(), op, s.qsvg(), s.Emb.Name, pts[badNZ], float64(s.Samples[badNZ][0])/float64(s.S), float64(s.Samples[badNZ][1])/float64(s.S), exp[badNZ], w[badNZ], r)})
 		}
 	}
 	// inclusion-exclusion of areas, on the real outputs (all results are canonical: signed area = region area)
 	if len(res) == 5 {
 		var sp, sq *canvas.Path
 		ok, _ := latgeo.Try(func() {
-			sp = latgeo.Build(s.P, s.Emb).Settle(canvas.NonZero)
-			sq = latgeo.Build(s.Q, s.Emb).Settle(canvas.NonZero)
+			sp = s.buildP().Settle(canvas.NonZero)
+			sq = s.buildQ().Settle(canvas.NonZero)
 		})
 		if ok {
 			a := func(p *canvas.Path) float64 { return latgeo.Area(p) }
@@ -166,7 +199,7 @@ func exec(s *Scenario, guard bool) (ms []core.Mismatch) {
 			chk := func(name string, lhs, rhs float64) {
 				if math.Abs(lhs-rhs) > tol || math.IsNaN(lhs) || math.IsNaN(rhs) {
 					ms = append(ms, core.Mismatch{Signature: "area-law-" + name + "+" + s.tag(), Detail: fmt.Sprintf("P=%s Q=%s emb=%s: %s: %.9g vs %.9g (areas and=%.6g or=%.6g xor=%.6g not=%.6g div=%.6g P=%.6g Q=%.6g)",
-						s.P.SVG(), s.Q.SVG(), s.Emb.Name, name, lhs, rhs, aAnd, aOr, aXor, aNot, aDiv, aP, aQ)})
+						s.psvg(), s.qsvg(), s.Emb.Name, name, lhs, rhs, aAnd, aOr, aXor, aNot, aDiv, aP, aQ)})
 				}
 			}
 			// only meaningful when the cell checks passed (otherwise the cause is already reported)
@@ -183,7 +216,7 @@ func exec(s *Scenario, guard bool) (ms []core.Mismatch) {
 	}
 	if s.Space == "tri" { // deterministic space: known findings are recorded per input
 		for i := range ms {
-			ms[i].Key = ms[i].Signature + "|" + s.P.SVG() + "|" + s.Q.SVG() + "|" + s.Emb.Name
+			ms[i].Key = ms[i].Signature + "|" + s.psvg() + "|" + s.qsvg() + "|" + s.Emb.Name
 		}
 	}
 	return
@@ -292,6 +325,67 @@ func (r *runner) runGen(space string, o tlc.Opts) {
 	<-done
 }
 
+// runCurved: pairs of cubic contours from spec/CurvedOps.tla (exact expectation through dyadic subdivision), embedded at large scale.
+func (r *runner) runCurved(o tlc.Opts) {
+	c := r.c
+	type cline struct {
+		Hdr     bool         `json:"hdr,omitempty"`
+		S       int          `json:"S,omitempty"`
+		Samples [][2]int     `json:"samples,omitempty"`
+		P       latgeo.CPath `json:"p,omitempty"`
+		Q       latgeo.CPath `json:"q,omitempty"`
+		And     []int        `json:"and,omitempty"`
+		Or      []int        `json:"or,omitempty"`
+		Xor     []int        `json:"xor,omitempty"`
+		Not     []int        `json:"not,omitempty"`
+		Div     []int        `json:"div,omitempty"`
+	}
+	var hdr cline
+	ch := make(chan []byte, 4096)
+	o.OnLine = func(p []byte) {
+		if hdr.S == 0 {
+			var l cline
+			if json.Unmarshal(p, &l) == nil && l.Hdr {
+				hdr = l
+				return
+			}
+		}
+		ch <- append([]byte(nil), p...)
+	}
+	done := make(chan struct{})
+	go func() {
+		core.Parallel(14, ch, func(p []byte) {
+			var l cline
+			if err := json.Unmarshal(p, &l); err != nil || len(l.P) == 0 {
+				c.Broken("bad curved scenario line")
+				return
+			}
+			k := atomic.AddInt64(&r.n, 1)
+			key := l.P.SVG() + "|" + l.Q.SVG()
+			if _, dup := r.seen.LoadOrStore(key, true); !dup {
+				atomic.AddInt64(&r.nontriv, 1)
+			}
+			e := latgeo.CurvedEmbeddings[int(hash(key))%len(latgeo.CurvedEmbeddings)]
+			s := &Scenario{Kind: "bool", S: hdr.S, Samples: hdr.Samples, CP: l.P, CQ: l.Q, Emb: e, Space: "curved",
+				Exp: map[string][]int{"and": l.And, "or": l.Or, "xor": l.Xor, "not": l.Not, "div": l.Div}}
+			ms := exec(s, false)
+			c.Count(5, 0, 1)
+			if k%5000 == 11 {
+				c.Sample(map[string]any{"curved_p": l.P.SVG(), "curved_q": l.Q.SVG(), "expected_and": l.And})
+			}
+			c.Report(s, ms)
+		})
+		close(done)
+	}()
+	c.TLC(o, true)
+	close(ch)
+	<-done
+}
+
+func ccfg(n, k, num int) string {
+	return fmt.Sprintf("SPECIFICATION Spec\nCONSTANTS N = %d\n K = %d\n Num = %d\n What = \"bool\"\nINVARIANTS SubdivOK\nCHECK_DEADLOCK FALSE\n", n, k, num)
+}
+
 func (d Driver) Run(c *core.Ctx) error {
 	c.Rule = "scenario = ordered pair of lattice paths (1-2 contours, 3-5 vertices each, all degenerate placements) printed by spec/BoolOps.tla with the expected three-valued cells of And/Or/Xor/Not/DivideBy, executed under 2-3 affine embeddings; evaluations = real boolean operations executed; non-trivial = distinct pairs whose regions overlap on at least one sample cell"
 	c.Assumptions = []string{"operands are lattice polygons and their affine images; the winding oracle (harness/internal/oracle) evaluates results at sample points that the spec proved to be off every input boundary",
@@ -330,10 +424,13 @@ func (d Driver) Run(c *core.Ctx) error {
 		r.runGen("pent", tlc.Opts{Module: "BoolOps", Config: cfg(4, 5, 1, "random", 500, "bool", false), Seed: c.Seed, Timeout: 30 * time.Minute})
 		r.runGen("two", tlc.Opts{Module: "BoolOps", Config: cfg(3, 4, 2, "random", 120, "bool", false), Seed: c.Seed + 1, Timeout: 30 * time.Minute})
 		r.runGen("hex", tlc.Opts{Module: "BoolOps", Config: cfg(6, 6, 1, "random", 250, "bool", false), Seed: c.Seed + 2, Timeout: 30 * time.Minute})
+		r.runCurved(tlc.Opts{Module: "CurvedOps", Config: ccfg(4, 3, 150), Seed: c.Seed + 3, Timeout: 30 * time.Minute})
+		r.runCurved(tlc.Opts{Module: "CurvedOps", Config: ccfg(5, 2, 120), Seed: c.Seed + 4, Timeout: 30 * time.Minute})
 	} else {
 		r.runGen("tri", tlc.Opts{Module: "BoolOps", Config: cfg(2, 3, 1, "random", 240, "bool", false), Seed: 7777})         // a fixed 57 600-pair sample of the tri space (deterministic: known findings per input)
 		r.runGen("pent", tlc.Opts{Module: "BoolOps", Config: cfg(4, 5, 1, "random", 130, "bool", false), Seed: c.Seed + 1}) // 16 900 pentagon pairs on 5x5
 		r.runGen("two", tlc.Opts{Module: "BoolOps", Config: cfg(3, 4, 2, "random", 40, "bool", false), Seed: c.Seed + 2})   // two contours per operand
+		r.runCurved(tlc.Opts{Module: "CurvedOps", Config: ccfg(4, 3, 20), Seed: c.Seed + 3})                               // 400 pairs of cubic contours
 	}
 	c.Count(0, r.nontriv, 0)
 	c.SetExtra("pairs", r.n)
